@@ -371,6 +371,16 @@ example : exF1.symsEq exF1 = true := by decide
 example : (exComplete.toPartialMin).states.length = 2 ∧ (exComplete.complementMin).states.length = 2 := by
   decide
 
+/-- `from_nfa(minify=True)` on an NFA with an ε-move whose subset construction has two
+equivalent accepting subsets. -/
+def exNFA : AV.NFA Nat Nat :=
+  { states := [0, 1, 2], syms := [0],
+    trans := [(0, [(none, [1]), (some 0, [2])]), (1, [(some 0, [1])]), (2, [(some 0, [2])])],
+    init := 0, finals := [1, 2] }
+
+example : exNFA.validate = .ok () := rfl
+example : exNFA.toDFA.states.length = 2 ∧ (exNFA.toDFAMin).states.length = 1 := by decide
+
 /-- `PyShape` cannot be dropped in the list model: a row with a duplicate key (impossible for
 a Python dict) is read by `.get` at its first entry but copied entry by entry by `_minify`. -/
 def exDupKey : AV.DFA Nat Nat :=
